@@ -108,35 +108,35 @@ theorem render_printable (t : Tag) (h : t.printable) : t.render = [t.b0, t.b1, t
     tagByte_printable _ h3]
 
 /-- what remains of the file name after an entry: more entries, each led by '_', then ".yml" -/
-def kernRest : Loc → List Nat
+def kernRestOld : Loc → List Nat
   | [] => lit ".yml"
-  | e :: r => 0x5F :: (kernEntry e ++ kernRest r)
+  | e :: r => 0x5F :: (kernEntryOld e ++ kernRestOld r)
 
-theorem join_cons_append (x : List Nat) (r : Loc) :
-    joinUnderscore (x :: r.map kernEntry) ++ lit ".yml" = x ++ kernRest r := by
+theorem join_cons_append_old (x : List Nat) (r : Loc) :
+    joinUnderscore (x :: r.map kernEntryOld) ++ lit ".yml" = x ++ kernRestOld r := by
   induction r generalizing x with
-  | nil => simp [joinUnderscore, kernRest]
+  | nil => simp [joinUnderscore, kernRestOld]
   | cons e r ih =>
-    simp only [List.map_cons, joinUnderscore, kernRest]
+    simp only [List.map_cons, joinUnderscore, kernRestOld]
     rw [List.append_assoc, List.cons_append]
-    rw [ih (kernEntry e)]
+    rw [ih (kernEntryOld e)]
 
-theorem kernFileName_nil : kernFileName [] = lit "kern_" ++ lit ".yml" := by
-  simp [kernFileName, joinUnderscore]
+theorem kernFileNameOld_nil : kernFileNameOld [] = lit "kern_" ++ lit ".yml" := by
+  simp [kernFileNameOld, joinUnderscore]
 
-theorem kernFileName_cons (e : Tag × Rat) (r : Loc) :
-    kernFileName (e :: r) = lit "kern_" ++ (kernEntry e ++ kernRest r) := by
-  unfold kernFileName
-  rw [List.append_assoc, List.map_cons, join_cons_append]
+theorem kernFileNameOld_cons (e : Tag × Rat) (r : Loc) :
+    kernFileNameOld (e :: r) = lit "kern_" ++ (kernEntryOld e ++ kernRestOld r) := by
+  unfold kernFileNameOld
+  rw [List.append_assoc, List.map_cons, join_cons_append_old]
 
 /-- what two decimals keep of a location -/
 def Loc.key (l : Loc) : List (Tag × (Bool × Nat)) := l.map fun e => (e.1, round2 e.2)
 
 def Loc.printable (l : Loc) : Prop := ∀ e ∈ l, e.1.printable
 
-theorem kernEntry_prefix (e e' : Tag × Rat) (u v : List Nat) (he : e.1.printable) (he' : e'.1.printable)
-    (h : kernEntry e ++ u = kernEntry e' ++ v) : e.1 = e'.1 ∧ round2 e.2 = round2 e'.2 ∧ u = v := by
-  unfold kernEntry fmt2 at h
+theorem kernEntryOld_prefix (e e' : Tag × Rat) (u v : List Nat) (he : e.1.printable) (he' : e'.1.printable)
+    (h : kernEntryOld e ++ u = kernEntryOld e' ++ v) : e.1 = e'.1 ∧ round2 e.2 = round2 e'.2 ∧ u = v := by
+  unfold kernEntryOld fmt2 at h
   rw [render_printable _ he, render_printable _ he'] at h
   simp only [List.cons_append, List.nil_append, List.cons.injEq, true_and] at h
   obtain ⟨h0, h1, h2, h3, h4⟩ := h
@@ -146,55 +146,55 @@ theorem kernEntry_prefix (e e' : Tag × Rat) (u v : List Nat) (he : e.1.printabl
   obtain ⟨⟨a', b', c', d'⟩, x'⟩ := e'
   simp_all
 
-theorem kernRest_inj (l1 : Loc) : ∀ l2 : Loc, l1.printable → l2.printable →
-    kernRest l1 = kernRest l2 → l1.key = l2.key := by
+theorem kernRestOld_inj (l1 : Loc) : ∀ l2 : Loc, l1.printable → l2.printable →
+    kernRestOld l1 = kernRestOld l2 → l1.key = l2.key := by
   induction l1 with
   | nil =>
     intro l2 _ _ h
     cases l2 with
     | nil => rfl
-    | cons e r => simp [kernRest, lit] at h
+    | cons e r => simp [kernRestOld, lit] at h
   | cons e r ih =>
     intro l2 p1 p2 h
     cases l2 with
-    | nil => simp [kernRest, lit] at h
+    | nil => simp [kernRestOld, lit] at h
     | cons e' r' =>
-      simp only [kernRest, List.cons.injEq, true_and] at h
-      obtain ⟨ht, hr, hrest⟩ := kernEntry_prefix e e' _ _ (p1 e (by simp)) (p2 e' (by simp)) h
+      simp only [kernRestOld, List.cons.injEq, true_and] at h
+      obtain ⟨ht, hr, hrest⟩ := kernEntryOld_prefix e e' _ _ (p1 e (by simp)) (p2 e' (by simp)) h
       have := ih r' (fun x hx => p1 x (by simp [hx])) (fun x hx => p2 x (by simp [hx])) hrest
       simp only [Loc.key, List.map_cons] at this ⊢
       rw [ht, hr, this]
 
 /-- equal kerning-instance file names ⇒ same axes and the same coordinates after rounding to two
     decimals -/
-theorem kernFileName_key (l1 l2 : Loc) (p1 : l1.printable) (p2 : l2.printable)
-    (h : kernFileName l1 = kernFileName l2) : l1.key = l2.key := by
+theorem kernFileNameOld_key (l1 l2 : Loc) (p1 : l1.printable) (p2 : l2.printable)
+    (h : kernFileNameOld l1 = kernFileNameOld l2) : l1.key = l2.key := by
   cases l1 with
   | nil =>
     cases l2 with
     | nil => rfl
     | cons e r =>
-      rw [kernFileName_nil, kernFileName_cons] at h
+      rw [kernFileNameOld_nil, kernFileNameOld_cons] at h
       have h := List.append_cancel_left h
-      unfold kernEntry at h
+      unfold kernEntryOld at h
       rw [render_printable _ (p2 e (by simp))] at h
       simp [lit] at h
   | cons e r =>
     cases l2 with
     | nil =>
-      rw [kernFileName_nil, kernFileName_cons] at h
+      rw [kernFileNameOld_nil, kernFileNameOld_cons] at h
       have h := List.append_cancel_left h
-      unfold kernEntry at h
+      unfold kernEntryOld at h
       rw [render_printable _ (p1 e (by simp))] at h
       simp [lit] at h
     | cons e' r' =>
-      rw [kernFileName_cons, kernFileName_cons] at h
+      rw [kernFileNameOld_cons, kernFileNameOld_cons] at h
       have h := List.append_cancel_left h
-      have h' : kernRest (e :: r) = kernRest (e' :: r') := by simp [kernRest, h]
-      exact kernRest_inj _ _ p1 p2 h'
+      have h' : kernRestOld (e :: r) = kernRestOld (e' :: r') := by simp [kernRestOld, h]
+      exact kernRestOld_inj _ _ p1 p2 h'
 
-theorem map_kernEntry_of_key (l1 : Loc) : ∀ l2 : Loc, l1.key = l2.key →
-    l1.map kernEntry = l2.map kernEntry := by
+theorem map_kernEntryOld_of_key (l1 : Loc) : ∀ l2 : Loc, l1.key = l2.key →
+    l1.map kernEntryOld = l2.map kernEntryOld := by
   induction l1 with
   | nil =>
     intro l2 h
@@ -208,20 +208,132 @@ theorem map_kernEntry_of_key (l1 : Loc) : ∀ l2 : Loc, l1.key = l2.key →
     | cons e' r' =>
       simp only [Loc.key, List.map_cons, List.cons.injEq, Prod.mk.injEq] at h
       have hr := ih r' (by simpa [Loc.key] using h.2)
-      have he : kernEntry e = kernEntry e' := by simp [kernEntry, fmt2, h.1.1, h.1.2]
+      have he : kernEntryOld e = kernEntryOld e' := by simp [kernEntryOld, fmt2, h.1.1, h.1.2]
       simp [he, hr]
 
 /-- and conversely: the file name only depends on the key -/
-theorem kernFileName_of_key (l1 l2 : Loc) (h : l1.key = l2.key) : kernFileName l1 = kernFileName l2 := by
-  unfold kernFileName
-  rw [map_kernEntry_of_key l1 l2 h]
+theorem kernFileNameOld_of_key (l1 l2 : Loc) (h : l1.key = l2.key) : kernFileNameOld l1 = kernFileNameOld l2 := by
+  unfold kernFileNameOld
+  rw [map_kernEntryOld_of_key l1 l2 h]
 
-theorem kernFileName_ne_locations (l : Loc) (p : l.printable) : kernFileName l ≠ lit "kern_locations.yml" := by
+theorem kernFileNameOld_ne_locations (l : Loc) (p : l.printable) : kernFileNameOld l ≠ lit "kern_locations.yml" := by
   intro h
   cases l with
-  | nil => rw [kernFileName_nil] at h; revert h; decide
+  | nil => rw [kernFileNameOld_nil] at h; revert h; decide
   | cons e r =>
-    rw [kernFileName_cons] at h
+    rw [kernFileNameOld_cons] at h
+    unfold kernEntryOld at h
+    rw [render_printable _ (p e (by simp))] at h
+    simp [lit] at h
+
+/-! ### the kerning-instance name of the current code (printer as a parameter) -/
+
+/-- what follows an entry in the joined name: nothing, or '_' and the remaining entries -/
+def kernRest (pr : Rat → List Nat) : Loc → List Nat
+  | [] => []
+  | e :: r => 0x5F :: (kernEntry pr e ++ kernRest pr r)
+
+theorem join_cons_eq (pr : Rat → List Nat) (x : List Nat) (r : Loc) :
+    joinUnderscore (x :: r.map (kernEntry pr)) = x ++ kernRest pr r := by
+  induction r generalizing x with
+  | nil => simp [joinUnderscore, kernRest]
+  | cons e r ih =>
+    simp only [List.map_cons, joinUnderscore, kernRest]
+    rw [ih (kernEntry pr e)]
+
+theorem kernName_nil (pr : Rat → List Nat) : kernName pr [] = lit "kern_" := by
+  simp [kernName, joinUnderscore]
+
+theorem kernName_cons (pr : Rat → List Nat) (e : Tag × Rat) (r : Loc) :
+    kernName pr (e :: r) = lit "kern_" ++ (kernEntry pr e ++ kernRest pr r) := by
+  unfold kernName
+  rw [List.map_cons, join_cons_eq]
+
+/-- the rest is empty or starts with '_' -/
+theorem kernRest_cases (pr : Rat → List Nat) (r : Loc) : kernRest pr r = [] ∨ ∃ t, kernRest pr r = 0x5F :: t := by
+  cases r with
+  | nil => exact Or.inl rfl
+  | cons e r => exact Or.inr ⟨_, rfl⟩
+
+theorem print_prefix (pr : Rat → List Nat) (hi : PrintInjective pr) (hu : PrintNoUnderscore pr)
+    (x y : Rat) (u v : List Nat) (hu' : u = [] ∨ ∃ t, u = 0x5F :: t) (hv' : v = [] ∨ ∃ t, v = 0x5F :: t)
+    (h : pr x ++ u = pr y ++ v) : x = y ∧ u = v := by
+  rcases hu' with rfl | ⟨t, rfl⟩ <;> rcases hv' with rfl | ⟨t', rfl⟩
+  · simp only [List.append_nil] at h
+    exact ⟨hi _ _ h, rfl⟩
+  · simp only [List.append_nil] at h
+    exact absurd (by rw [h]; simp) (hu x)
+  · simp only [List.append_nil] at h
+    exact absurd (by rw [← h]; simp) (hu y)
+  · obtain ⟨h1, h2⟩ := split_at_sep _ _ _ _ (hu x) (hu y) h
+    exact ⟨hi _ _ h1, by rw [h2]⟩
+
+theorem kernEntry_prefix (pr : Rat → List Nat) (hi : PrintInjective pr) (hu : PrintNoUnderscore pr)
+    (e e' : Tag × Rat) (u v : List Nat) (he : e.1.printable) (he' : e'.1.printable)
+    (hu' : u = [] ∨ ∃ t, u = 0x5F :: t) (hv' : v = [] ∨ ∃ t, v = 0x5F :: t)
+    (h : kernEntry pr e ++ u = kernEntry pr e' ++ v) : e = e' ∧ u = v := by
+  unfold kernEntry at h
+  rw [render_printable _ he, render_printable _ he'] at h
+  simp only [List.cons_append, List.nil_append, List.cons.injEq, true_and] at h
+  obtain ⟨h0, h1, h2, h3, h4⟩ := h
+  obtain ⟨hx, huv⟩ := print_prefix pr hi hu _ _ _ _ hu' hv' h4
+  refine ⟨?_, huv⟩
+  obtain ⟨⟨a, b, c, d⟩, x⟩ := e
+  obtain ⟨⟨a', b', c', d'⟩, x'⟩ := e'
+  simp_all
+
+theorem kernRest_inj (pr : Rat → List Nat) (hi : PrintInjective pr) (hu : PrintNoUnderscore pr)
+    (l1 : Loc) : ∀ l2 : Loc, l1.printable → l2.printable → kernRest pr l1 = kernRest pr l2 → l1 = l2 := by
+  induction l1 with
+  | nil =>
+    intro l2 _ _ h
+    cases l2 with
+    | nil => rfl
+    | cons e r => simp [kernRest] at h
+  | cons e r ih =>
+    intro l2 p1 p2 h
+    cases l2 with
+    | nil => simp [kernRest] at h
+    | cons e' r' =>
+      simp only [kernRest, List.cons.injEq, true_and] at h
+      obtain ⟨he, hrest⟩ := kernEntry_prefix pr hi hu e e' _ _ (p1 e (by simp)) (p2 e' (by simp))
+        (kernRest_cases pr r) (kernRest_cases pr r') h
+      rw [he, ih r' (fun x hx => p1 x (by simp [hx])) (fun x hx => p2 x (by simp [hx])) hrest]
+
+/-- distinct locations have distinct names (before `string_to_filename`) -/
+theorem kernName_inj (pr : Rat → List Nat) (hi : PrintInjective pr) (hu : PrintNoUnderscore pr)
+    (l1 l2 : Loc) (p1 : l1.printable) (p2 : l2.printable) (h : kernName pr l1 = kernName pr l2) : l1 = l2 := by
+  cases l1 with
+  | nil =>
+    cases l2 with
+    | nil => rfl
+    | cons e r =>
+      rw [kernName_nil, kernName_cons] at h
+      have h := congrArg List.length h
+      unfold kernEntry at h
+      rw [render_printable _ (p2 e (by simp))] at h
+      simp at h
+  | cons e r =>
+    cases l2 with
+    | nil =>
+      rw [kernName_nil, kernName_cons] at h
+      have h := congrArg List.length h
+      unfold kernEntry at h
+      rw [render_printable _ (p1 e (by simp))] at h
+      simp at h
+    | cons e' r' =>
+      rw [kernName_cons, kernName_cons] at h
+      have h := List.append_cancel_left h
+      have h' : kernRest pr (e :: r) = kernRest pr (e' :: r') := by simp [kernRest, h]
+      exact kernRest_inj pr hi hu _ _ p1 p2 h'
+
+theorem kernName_ne_locations (pr : Rat → List Nat) (l : Loc) (p : l.printable) :
+    kernName pr l ≠ lit "kern_locations" := by
+  intro h
+  cases l with
+  | nil => rw [kernName_nil] at h; revert h; decide
+  | cons e r =>
+    rw [kernName_cons] at h
     unfold kernEntry at h
     rw [render_printable _ (p e (by simp))] at h
     simp [lit] at h
